@@ -88,6 +88,24 @@ pub fn topology(plan: &mut Plan, r: &mut Rng, n_clients: usize, n_raw: usize, se
         plan.endpoints.push(EndpointSpec { kind: EndpointKind::Raw, addr: raw_addr(i), clock_ppm: 1_000_000, echo: false, nonces: Vec::new() });
         raws.push(1 + n_clients + i);
     }
+    // address families (drawn from a generator of its own): in one run out of eight the server is
+    // a dual-stack IPv6 socket and every peer reaches it under an IPv6 address - a genuine one or
+    // the IPv4-mapped form (::ffff:a.b.c.d) under which such a socket sees IPv4 peers
+    let mut ra = Rng::keyed(&[plan.seed, plan.run, 0xadd2_6]);
+    if ra.chance(0.125) {
+        plan.endpoints[0].addr = "[2001:db8::1]:8888".to_string();
+        for (i, e) in plan.endpoints.iter_mut().enumerate().skip(1) {
+            let v4: std::net::SocketAddr = e.addr.parse().unwrap();
+            e.addr = if ra.chance(0.5) {
+                match v4.ip() {
+                    std::net::IpAddr::V4(ip) => format!("[{}]:{}", ip.to_ipv6_mapped(), v4.port()),
+                    _ => e.addr.clone(),
+                }
+            } else {
+                format!("[2001:db8:{}::{}]:{}", i / 256 + 2, i % 256 + 1, v4.port())
+            };
+        }
+    }
     BTopology { server: 0, clients, raws }
 }
 
@@ -820,6 +838,53 @@ pub fn world_b_lifecycle(property: &str, scenario: &str, seed: u64, run: u64, th
     }
     let cad = Cadence { period_us: r.range(2_000, 100_000), jitter: 0.5, stall_p: if r.chance(0.3) { 0.005 } else { 0.0 }, stall_max_us: 8_000_000, flush_after_step_p: 0.3 };
     cad.steps(&mut r, &mut plan, 0, 0, horizon, 12_000, true);
+    {
+        // drawn from a generator of their own, so that the rest of the plan does not depend on them
+        let mut r = Rng::keyed(&[seed, run, 0x11fe_c7c1]);
+        // a connection table that is full or nearly so: what the server does for one address
+        // then depends on the entries of the others (refusals, slots that have to come back)
+        if r.chance(0.35) {
+            if let EndpointKind::Server { max_total, max_active, .. } = &mut plan.endpoints[0].kind {
+                *max_total = r.range(1, n_clients as u64);
+                *max_active = if r.chance(0.5) { r.range(1, *max_total) } else { 32 };
+            }
+        }
+        // busy steps: every client hands over a burst of small packets at about the same
+        // moment, one connection ends right then, and the server application polls rarely
+        // around it, so that one step() returns dozens of events of several connections
+        if r.chance(0.25) {
+            for _ in 0..r.range(1, 3) {
+                // (in the clean half of a fault phase, when most connections are up)
+                let span = phases_end / phases / 2;
+                let k = r.below(phases);
+                let tb = (2 * k + 1) * span + r.range(span / 4, span.max(4));
+                let quiet = latency + r.range(20_000, 300_000);
+                plan.timeline.retain(|t| !(matches!(t.op, Op::Step { ep: 0 } | Op::Flush { ep: 0 }) && t.t_us + quiet > tb && t.t_us < tb + quiet));
+                // half of the time nothing has ended a connection before
+                if r.chance(0.5) {
+                    plan.timeline.retain(|t| !(matches!(t.op, Op::Disconnect { .. } | Op::DisconnectNow { .. } | Op::ServerDrop { .. }) && t.t_us < tb));
+                }
+                for &c in topo.clients.iter() {
+                    let n = r.range(6, 40);
+                    let from_server = r.chance(0.2);
+                    for _ in 0..n {
+                        let t = tb - r.below(30_000);
+                        let (ep, to) = if from_server { (0, Some(c)) } else { (c, None) };
+                        plan.push(t, 0x4000_0000 + tag, Op::Send { ep, to, ch: r.below(4) as u8, mode: r.below(4) as u8, len: r.range(12, 60) as u32, tag });
+                        tag += 1;
+                    }
+                }
+                let c = *r.pick(&topo.clients);
+                let t = tb + r.below(2000);
+                match r.below(4) {
+                    0 => plan.push(t, r.u32() | 1, Op::Disconnect { ep: c, to: None }),
+                    1 => plan.push(t, r.u32() | 1, Op::DisconnectNow { ep: c, to: None }),
+                    2 => plan.push(t, r.u32() | 1, Op::DisconnectNow { ep: 0, to: Some(c) }),
+                    _ => plan.push(t, r.u32() | 1, Op::Disconnect { ep: 0, to: Some(c) }),
+                }
+            }
+        }
+    }
     plan.params.insert("short_ch".into(), 63.0);
     plan.end_us = horizon;
     plan.sort();
@@ -1130,6 +1195,18 @@ pub fn world_b_spoof(property: &str, scenario: &str, seed: u64, run: u64, thorou
             ts += 1_000_000;
         }
     }
+    {
+        // bursts of failing receive calls at the server (1 .. 1000 in a row), at any time and
+        // right after datagrams from the spoofable addresses (drawn from a generator of its own)
+        let mut r = Rng::keyed(&[seed, run, 0x50c_18a]);
+        if r.chance(0.5) {
+            let injected: Vec<u64> = plan.timeline.iter().filter(|t| matches!(t.op, Op::Inject { .. })).map(|t| t.t_us).collect();
+            for _ in 0..r.range(1, 6) {
+                let t = if r.chance(0.6) && !injected.is_empty() { *r.pick(&injected) + r.below(120_000) } else { r.range(0, horizon) };
+                plan.push(t, 0x8000_0004, Op::SockErr { ep: 0, recv: *r.pick(&[1u32, 2, 3, 10, 50, 200, 400, 1000]), send: 0 });
+            }
+        }
+    }
     plan.end_us = horizon;
     plan.sort();
     plan
@@ -1207,6 +1284,25 @@ pub fn world_b_spoof_long(property: &str, scenario: &str, seed: u64, run: u64, _
         }
         plan.push(500_000, 5, Op::StepEvery { ep: raw, period_us: 1_000_000, until_us: horizon });
     }
+    {
+        // trouble at the server's socket while handshakes are pending (drawn from a generator of
+        // its own): periods of 0.05-4 s during which every send call fails, and bursts of up to
+        // 400 failing receive calls (often right after a connection request has been read)
+        let mut r = Rng::keyed(&[seed, run, 0x50c_18]);
+        if r.chance(0.5) {
+            for _ in 0..r.range(1, 3) {
+                let t = r.range(100_000, 24_000_000);
+                plan.push(t, 0x8000_0004, Op::SockErr { ep: 0, recv: 0, send: 1_000_000 });
+                plan.push(t + r.log_range(50_000, 4_000_000), 0x8000_0004, Op::SockErr { ep: 0, recv: 0, send: 0 });
+            }
+        }
+        if r.chance(0.5) {
+            for _ in 0..r.range(1, 4) {
+                let t = if r.chance(0.5) { r.range(0, 2_000_000) + r.below(200_000) } else { r.range(100_000, 60_000_000) };
+                plan.push(t, 0x8000_0004, Op::SockErr { ep: 0, recv: r.log_range(1, 400) as u32, send: 0 });
+            }
+        }
+    }
     plan.end_us = horizon;
     plan.sort();
     plan
@@ -1252,6 +1348,29 @@ fn world_b_disconnect_reachable(property: &str, scenario: &str, seed: u64, run: 
     lossy.drop_types = 1 << crate::world::FRAME_DISC_ACK;
     lossy.drop_types_p = 1.0;
     plan.push(t_call.saturating_sub(1000), 2, Op::Link { from: None, to: None, rule: lossy });
+    {
+        // crossing closes (drawn from a generator of its own): the other side calls too, at about
+        // the same time, and for the few seconds of loss each direction loses its disconnect
+        // requests, its acknowledgements, both or neither. Both sides stay reachable, so both
+        // attempts have to end in Disconnect.
+        let mut r = Rng::keyed(&[seed, run, 0xc9055]);
+        if r.chance(0.35) {
+            let (other, other_to) = if caller_is_client { (0usize, Some(c)) } else { (c, None) };
+            let t_other = (t_call + r.below(2 * latency + 30_000)).saturating_sub(r.below(latency + 1));
+            plan.push(t_other, 0x6000_0001, if r.chance(0.5) { Op::Disconnect { ep: other, to: other_to } } else { Op::DisconnectNow { ep: other, to: other_to } });
+            for (from, to) in [(0usize, c), (c, 0usize)] {
+                let mut rule = clean_rule(latency);
+                rule.drop_types = match r.below(4) {
+                    0 => 1 << crate::world::FRAME_DISC_ACK,
+                    1 => 1 << crate::world::FRAME_DISC,
+                    2 => (1 << crate::world::FRAME_DISC) | (1 << crate::world::FRAME_DISC_ACK),
+                    _ => 0,
+                };
+                rule.drop_types_p = 1.0;
+                plan.push(t_call.min(t_other).saturating_sub(900), 2, Op::Link { from: Some(from), to: Some(to), rule });
+            }
+        }
+    }
     plan.push(t_call + r.range(1_000_000, 9_000_000), 2, Op::Link { from: None, to: None, rule: clean_rule(latency) });
     let horizon = t_call + 60_000_000;
     plan.push(r.below(20_000), r.u32() | 1, Op::StepEvery { ep: c, period_us: r.range(5_000, 100_000), until_us: horizon });
@@ -1592,6 +1711,18 @@ pub fn world_b_one_way(property: &str, scenario: &str, seed: u64, run: u64, thor
     let loud = if client_streams { &mut ccfg } else { &mut scfg };
     loud.keepalive = r.chance(0.5);
     loud.keepalive_interval_ms = r.log_range(100, 30_000);
+    // an idle gap in the middle of the stream, longer than the silence timeouts: one side (either)
+    // has its keepalive on with an interval that fits four times into the shorter timeout, so the
+    // connection has to survive the gap and deliver what is sent after it (drawn from a generator
+    // of its own)
+    let mut r2 = Rng::keyed(&[seed, run, 0x1d1e_9a9]);
+    let min_cfg_to = scfg.active_timeout_ms.min(ccfg.active_timeout_ms);
+    let idle_gap_us = if r2.chance(0.35) && min_cfg_to >= 8_000 { min_cfg_to * 100 * r2.range(12, 30) } else { 0 };
+    if idle_gap_us > 0 {
+        let side = if r2.chance(0.5) { &mut ccfg } else { &mut scfg };
+        side.keepalive = true;
+        side.keepalive_interval_ms = r2.log_range(100, min_cfg_to / 4);
+    }
     let cc = ccfg.clone();
     let topo = topology(&mut plan, &mut r, 1, 0, scfg, 64, 32, move |_, _| cc.clone());
     let c = topo.clients[0];
@@ -1617,7 +1748,8 @@ pub fn world_b_one_way(property: &str, scenario: &str, seed: u64, run: u64, thor
     let min_to = timeout.min(match &plan.endpoints[c].kind { EndpointKind::Client { cfg, .. } => cfg.active_timeout_ms, _ => timeout });
     let t0 = 1_000_000;
     let stream_us = min_to * 1000 * r.range(2, if thorough { 8 } else { 4 }) + r.range(0, 2_000_000);
-    let horizon = t0 + stream_us + 30_000_000;
+    let horizon = t0 + stream_us + idle_gap_us + 30_000_000;
+    let t_gap = t0 + r2.below(stream_us);
     plan.push(2000, 3, Op::StepEvery { ep: c, period_us: r.range(2_000, 100_000), until_us: horizon });
     plan.push(2500, 3, Op::StepEvery { ep: 0, period_us: r.range(2_000, 100_000), until_us: horizon });
     let (from, to) = if client_streams { (c, None) } else { (0, Some(c)) };
@@ -1625,7 +1757,12 @@ pub fn world_b_one_way(property: &str, scenario: &str, seed: u64, run: u64, thor
     let busy = r.chance(0.5);
     let mut t = t0;
     let mut tag = 0u32;
-    while t < t0 + stream_us && tag < 4000 {
+    let mut gap_done = idle_gap_us == 0;
+    while t < t0 + stream_us + (idle_gap_us - if gap_done { 0 } else { idle_gap_us }) && tag < 4000 {
+        if !gap_done && t >= t_gap {
+            gap_done = true;
+            t += idle_gap_us;
+        }
         let len = if r.chance(0.1) { r.range(1500, 4000) } else { r.range(12, 600) } as u32;
         let mode = if property == "C05" { *r.pick(&[MODE_RELIABLE, MODE_UNRELIABLE, MODE_PERSISTENT]) } else { MODE_RELIABLE };
         plan.push(t, 0x4000_0000 + tag, Op::Send { ep: from, to, ch: (tag % 3) as u8, mode, len, tag });
@@ -1709,7 +1846,27 @@ pub fn world_b_retry(property: &str, scenario: &str, seed: u64, run: u64, _thoro
             let mut b = clean_rule(latency);
             b.blackout = true;
             plan.push(t_b, 3, Op::Link { from: None, to: None, rule: b });
-            let t_call = t_b + if t_b < shift + k * 2_000_000 + 2_000_000 { r.below(300_000) } else { r.below(3_000_000) };
+            let mut t_call = t_b + if t_b < shift + k * 2_000_000 + 2_000_000 { r.below(300_000) } else { r.below(3_000_000) };
+            // the silence timeout of either side may be shorter than the 22 s of the attempt: a
+            // closing endpoint has its own budget, whatever its silence timer said before
+            // (drawn from a generator of its own)
+            {
+                let mut r = Rng::keyed(&[seed, run, 0x7e7_b0d6]);
+                if r.chance(0.6) {
+                    let to_c = *r.pick(&[3000u64, 5000, 10_000, 20_000]);
+                    let to_s = *r.pick(&[3000u64, 5000, 10_000, 20_000, 60_000]);
+                    t_call = t_call.min(t_b + to_c.min(to_s) * 1000 / 3);
+                    for (i, e) in plan.endpoints.iter_mut().enumerate() {
+                        if let EndpointKind::Client { cfg, .. } | EndpointKind::Server { cfg, .. } = &mut e.kind {
+                            if i == c {
+                                cfg.active_timeout_ms = to_c;
+                            } else if i == 0 {
+                                cfg.active_timeout_ms = to_s;
+                            }
+                        }
+                    }
+                }
+            }
             if r.chance(0.5) {
                 plan.push(t_call, 0x6000_0000, Op::DisconnectNow { ep: c, to: None });
             } else {
